@@ -257,6 +257,16 @@ class dict_archive(archive):
     def __asdict__(self):
         """build a dictionary containing the archive contents"""
         return dict(self.items())
+    def __eq__(self, y): # compare contents, also with an archive that stores elsewhere
+        try:
+            if y.__module__ != self.__module__: return NotImplemented
+            return self.__asdict__() == y.__asdict__()
+        except: return NotImplemented
+    __eq__.__doc__ = dict.__eq__.__doc__
+    def __ne__(self, y):
+        y = self.__eq__(y)
+        return NotImplemented if y is NotImplemented else not y
+    __ne__.__doc__ = dict.__ne__.__doc__
     def __repr__(self):
         return "dict_archive(%s, cached=False)" % (self.__asdict__())
     __repr__.__doc__ = dict.__repr__.__doc__
@@ -291,6 +301,16 @@ class null_archive(archive):
     def __asdict__(self):
         """build a dictionary containing the archive contents"""
         return dict()
+    def __eq__(self, y): # compare contents, also with an archive that stores elsewhere
+        try:
+            if y.__module__ != self.__module__: return NotImplemented
+            return self.__asdict__() == y.__asdict__()
+        except: return NotImplemented
+    __eq__.__doc__ = dict.__eq__.__doc__
+    def __ne__(self, y):
+        y = self.__eq__(y)
+        return NotImplemented if y is NotImplemented else not y
+    __ne__.__doc__ = dict.__ne__.__doc__
     def __setitem__(self, key, value):
         pass
     __setitem__.__doc__ = dict.__setitem__.__doc__
